@@ -406,7 +406,83 @@ def r6(repo, res):
            key="out-of-gene-folding")
 
 
+def spec_pileup(cigar, seq, start=START):
+    """Independent CIGAR interpreter (reference is 'A' everywhere): (per-position list of kinds, insertions, final cursor)."""
+    per = collections.defaultdict(list)
+    ins = []
+    rp, qp = start, 0
+    for op, n in cigar:
+        if op in (0, 7, 8):
+            for i in range(n):
+                b = seq[qp + i]
+                per[rp + i].append("_" if b == "A" else f"A>{b}")
+            rp += n
+            qp += n
+        elif op == 1:
+            ins.append((rp, "ins" + seq[qp:qp + n]))
+            qp += n
+        elif op == 2:
+            for i in range(n):
+                per[rp + i].append("-")
+            rp += n
+        elif op == 4:
+            qp += n
+    return per, ins, rp
+
+
+def r8_exhaustive(repo, res):
+    """Thorough tier: every CIGAR of up to three runs over {M,=,X,I,D,S} with run lengths 1..3 and seeded read bases,
+    folded through the lifted parser and compared with the independent interpreter."""
+    import random
+
+    from sa.report import seed, thorough
+
+    if not thorough():
+        return
+    f = repo.func("sam::Sample._parse_read")
+    rnd = random.Random(seed())
+    alphabet = [0, 7, 8, 1, 2, 4]
+    n = 0
+    bad = None
+    for k in (1, 2, 3):
+        for ops in itertools.product(alphabet, repeat=k):
+            if any(a == b for a, b in zip(ops, ops[1:])):
+                continue
+            if any(o == 4 for o in ops[1:-1]) or (k > 1 and ops[0] in (1, 2)) or ops[-1] in (1, 2) and k > 1:
+                continue  # soft clips at the ends only; no leading / trailing indels (not produced by aligners)
+            if not any(o in (0, 7, 8) for o in ops):
+                continue
+            for sizes in itertools.product((1, 2, 3), repeat=k):
+                cigar = list(zip(ops, sizes))
+                qlen = sum(s_ for o, s_ in cigar if o in CONSUMES_QUERY)
+                seq = "".join(rnd.choice("AAACGT") for _ in range(qlen))
+                qual = [rnd.randint(2, 41) for _ in range(qlen)]
+                try:
+                    kind, val, norm, muts, me, ev = fold_parse_read(repo, cigar, seq, qual)
+                except Unfoldable as e:
+                    res.err("C06.R8", f"_parse_read outside folding language: {e}")
+                    return
+                n += 1
+                per, ins = observations(norm, muts)
+                wper, wins, wcur = spec_pileup(cigar, seq)
+                got = {p: sorted(("-" if not (x == "_" or ">" in x) else x) for x, _ in l) for p, l in per.items() if l}
+                want = {p: sorted(l) for p, l in wper.items()}
+                gins = sorted((p, o) for p, o, _ in ins)
+                cur = val[0][1] if kind == "return" and val else None
+                if kind == "raise" or got != want or gins != sorted(wins) or cur != wcur:
+                    bad = bad or (f"CIGAR {''.join(str(s_) + OPS[o] for o, s_ in cigar)} read {seq}: "
+                                  f"{'raises ' + str(val) if kind == 'raise' else f'pileup {got} / insertions {gins} / cursor {cur}'}; "
+                                  f"specification {want} / {sorted(wins)} / {wcur}")
+    res.count("C06.R8:CIGARs enumerated", n)
+    res.ob("C06.R8", f, f, bad is None,
+           expected="the lifted parser's pileup equals an independent CIGAR interpreter on every CIGAR of up to three runs (lengths 1..3)",
+           found=f"{n} reads agree" if bad is None else bad,
+           clause="the number of non-insertion observations equals the number of eligible reads whose alignment spans that position",
+           key="exhaustive-small-cigars")
+
+
 def run(repo, res):
+    r8_exhaustive(repo, res)
     r1_r2_r5(repo, res)
     r1_symbolic(repo, res)
     r7_phase(repo, res)
